@@ -1,5 +1,6 @@
 import Driver.Circ
 import Driver.BuilderOps
+import Driver.ArithOps
 /-! gvdriver — the model side of the correspondence checks: one JSON case per line on stdin,
 one JSON result per line on stdout. Imports models only (no proofs, no Mathlib). -/
 open Lean GVD
@@ -10,6 +11,7 @@ def handle (case : Json) : Json :=
   | "reg_validate_eval" => regValidateEval case
   | "builder_run" => builderRun case
   | "convert" => convertOp case
+  | "arith" => arithOp case
   | op => Json.mkObj [("error", s!"unknown op {op}")]
 
 partial def loop (h : IO.FS.Stream) (out : IO.FS.Stream) : IO Unit := do
